@@ -32,7 +32,7 @@ FIRST_MISSED = {  # caught only after the extension named here (recorded while t
  "C19-m3": "quick tier mutates the first 64 positions of every file completely (the count field of the index header)",
  "C20-m4": "config values whose line crosses 4096 / 8192 bytes",
  # round 3 (m5/m6)
- "C02-m6": "branch names that differ only by a trailing blank (`w`, `w `, ` w`) in the pools",
+ "C02-m6": "branch names that differ only by a trailing blank (`w`, `w `, ` w`) in the pools; with the final harness it is C10 that catches it within the quick budget",
  "C04-m6": "paths longer than 255 bytes (two long directory components) in the path generator and in the C06 universe",
  "C06-m5": "rm oracle: overlapping / repeated arguments must succeed too (the tolerance dated from the pinned tree)",
  "C08-m5": "confusable siblings that are DIRECTORIES (`lib/` next to `lib-old/`)",
@@ -109,7 +109,7 @@ FIRST_MISSED = {  # caught only after the extension named here (recorded while t
  "C10-m6": "the violation was found but could not be replayed (the step carried a commit id of the generating run): steps now name commits symbolically (`@commit#n`)",
 }
 print("### D.1 Changes written by independent sub-agents (`seeded/<ID>-mN/`)\n")
-print("Each was confirmed with `lib/intake.sh` (demonstration exits 0 on the clean tree; with the patch the tree builds, the unit tests pass, the demonstration exits 1). \"quick check\" is the exit status of the property's quick tier against the patched tree with the final harness.\n")
+print("Each was confirmed with `lib/intake.sh` when it was written (demonstration exits 0 on the clean tree; with the patch the tree builds, the unit tests pass, the demonstration exits 1). \"quick check\" is the exit status of the property's quick tier (and of neighbouring checks where named) against the patched tree in the last re-run with the final harness. `/repo` moved on by more than twenty repairs after rounds 3 and 4: where a patch no longer applies to the final tree, a hand-carried version (`patch.ported.diff`) was used if there is one; otherwise the patch was applied to the tree of its round (marked *old base*), on which the final checks also flag that tree's own, since repaired, defects — an exit 1 there says little, and \"confirmation incomplete\" then only means that the demonstration no longer distinguishes. A demonstration that passes on the final tree with the patch means that a later repair neutralised the change. The record that counts for those rows is the *first detection* column, written when the change was first taken in.\n")
 print("| change | what it needs in order to manifest (from the author's notes) | quick check | first detection |")
 print("|---|---|---|---|")
 for d in sorted(glob.glob('/verif/seeded/C*-m*')):
@@ -129,7 +129,13 @@ for d in sorted(glob.glob('/verif/seeded/C*-m*')):
     conf = m.get('confirmed', {})
     ok = conf.get('demo_exit_on_clean_tree') == '0' and conf.get('demo_exit_with_patch') == '1' and conf.get('unit_test_failures_with_patch') == 0
     first = "as built" if name not in FIRST_MISSED else "after extension: " + FIRST_MISSED[name]
-    print("| `%s`%s | %s | %s | %s |" % (name, "" if ok else " (confirmation incomplete)", short.replace('|', '\\|'), st, first))
+    base = m.get('applied_to', 'HEAD')
+    tag = "" if ok else " (confirmation incomplete)"
+    if not base.startswith('HEAD'):
+        tag += " (*old base* %s)" % base
+    elif 'ported' in base:
+        tag += " (ported)"
+    print("| `%s`%s | %s | %s | %s |" % (name, tag, short.replace('|', '\\|'), st, first))
 print("\n### D.2 Self-made sensitivity changes (`seeded/self/*.diff`, from the sensitivity targets of section 4)\n")
 print("| change | checks run | result |")
 print("|---|---|---|")
